@@ -9,12 +9,16 @@ package checks
 // whole cache is compared with the reference database.
 
 import (
+	"sync"
+
 	"context"
 	"encoding/json"
 	"fmt"
+	"github.com/cenkalti/backoff/v4"
 	"sort"
 	"strings"
 	"time"
+	"verifharness/internal/ref"
 
 	"github.com/go-logr/logr"
 	"github.com/ovn-org/libovsdb/client"
@@ -154,5 +158,100 @@ func c01RefFedCase(r *ev.Run, p *prng.R, batch, ci int) {
 		if post.Rows() > 16 {
 			return
 		}
+	}
+}
+
+// c01DeferredErrorCase: while an additional monitor is being set up, a valid
+// notification for an established monitor and then an inapplicable one are
+// deferred. The set-up fails on the second; no later set-up may apply the
+// first a second time (set and map differences are not idempotent), and the
+// cache must end up equal to the database.
+func c01DeferredErrorCase(r *ev.Run, batch int, method string) {
+	m, err := dyn.Build(c16Schema(), nil)
+	if err != nil {
+		return
+	}
+	p := prng.Derive(ev.Seed(), "C01deferr", batch, method)
+	hs, err := newHistServer(m, fmt.Sprintf("%s/c01d-%d-%s.sock", wireScratch(), batch, method), p)
+	if err != nil {
+		r.Inconclusive("reference server: " + err.Error())
+		return
+	}
+	defer hs.close()
+	var rows []string
+	for i := 0; i < 3; i++ {
+		u := p.UUID()
+		rows = append(rows, u)
+		_ = hs.apply([]ref.Op{{Kind: "insert", Table: "T0", UUID: u, Row: ref.Row{"name": ref.Set(ref.Str(fmt.Sprintf("t0-%d", i))), "ports": ref.Set(ref.Str("p0")), "tags": ref.MapOf([2]ref.Atom{ref.Str("k"), ref.Str("v0")})}}})
+	}
+	l := logr.Discard()
+	cl, err := client.NewOVSDBClient(m.Client, client.WithEndpoint("unix:"+hs.path), client.WithLogger(&l),
+		client.WithReconnect(2*time.Second, backoff.NewConstantBackOff(10*time.Millisecond)))
+	if err != nil {
+		r.Inconclusive("client: " + err.Error())
+		return
+	}
+	ctx, cancel := context.WithTimeout(context.Background(), 60*time.Second)
+	defer cancel()
+	if err := cl.Connect(ctx); err != nil {
+		r.Inconclusive("connect: " + err.Error())
+		return
+	}
+	defer cl.Close()
+	mon := func(tn string) error {
+		mo := cl.NewMonitor(client.WithTable(m.NewModel(tn, "", nil)))
+		mo.Method = method
+		mctx, mcancel := context.WithTimeout(ctx, 5*time.Second)
+		defer mcancel()
+		_, err := cl.Monitor(mctx, mo)
+		return err
+	}
+	if err := mon("T0"); err != nil {
+		r.Inconclusive("monitor T0: " + err.Error())
+		return
+	}
+	step := 0
+	change := func() {
+		step++
+		_ = hs.apply([]ref.Op{{Kind: "update", Table: "T0", Where: byUUID(rows[0]), Row: ref.Row{"n": ref.Set(ref.Int(int64(step))), "ports": ref.Set(ref.Str(fmt.Sprintf("p%d", step))), "tags": ref.MapOf([2]ref.Atom{ref.Str("k"), ref.Str(fmt.Sprintf("v%d", step))})}}})
+	}
+	var once sync.Once
+	installClientHook()
+	c16WinMu.Lock()
+	c16Window = func() {
+		once.Do(func() {
+			change()                        // valid, deferred
+			hs.injectInapplicable("Marker") // deferred too; cannot be applied
+		})
+	}
+	c16WinMu.Unlock()
+	err1 := mon("T1")
+	c16WinMu.Lock()
+	c16Window = nil
+	c16WinMu.Unlock()
+	r.Eval(1)
+	r.Count("deferred-error.cases", 1)
+	if err1 != nil {
+		r.Count("deferred-error.setup-failed-as-expected", 1)
+	}
+	// further set-ups and changes
+	_ = mon("T2")
+	change()
+	monitored := map[string]map[string]bool{"T0": {"name": true, "n": true, "tags": true, "ports": true}}
+	d := ""
+	for i := 0; i < 1000; i++ {
+		if d = cacheDiff(m, cl, hs.snapshot(), monitored); d == "" {
+			break
+		}
+		time.Sleep(10 * time.Millisecond)
+		if i%200 == 199 {
+			change() // a notification lets a rebuilt cache catch up
+		}
+	}
+	r.Distinct("reference-fed|deferred-error|" + method)
+	if d != "" {
+		r.Violation("C01/reference-fed/deferred-update-after-failed-setup/"+method+"/"+cacheDiffClass(d),
+			"a notification deferred during a monitor set-up that failed on a later, inapplicable notification was applied again by the next set-up (or the cache was never rebuilt): "+d,
+			map[string]interface{}{"method": method, "first_setup_error": fmt.Sprint(err1)})
 	}
 }
